@@ -696,7 +696,9 @@ func New() Beacon {
 func (b *beacon) GetAll() map[string]treasure.Treasure {
 	b.mu.RLock()
 	defer b.mu.RUnlock()
-	return b.treasuresByKeys
+	// hand out a copy: callers range over the result without the beacon's lock while writers keep
+	// inserting into / deleting from the internal map
+	return maps.Clone(b.treasuresByKeys)
 }
 
 type IterationType int
